@@ -311,6 +311,91 @@ pub mod verif_api {
         }])
         .built
     }
+
+    /// `PAGE_ELISION_THRESHOLD`.
+    pub const PAGE_ELISION_THRESHOLD: u64 = crate::merkle::verif_walk::THRESHOLD;
+
+    /// What the page walker reported for one page of a batch.
+    pub struct VerifWalkUpdate {
+        /// The page id as the list of child indices from the root page.
+        pub page_id: Vec<u8>,
+        /// The page was reported cleared and is dropped from the store.
+        pub cleared: bool,
+        /// The page was reported with `BucketInfo::Fresh` (a new bucket would be allocated).
+        pub fresh: bool,
+        /// The page was stored before the batch.
+        pub was_stored: bool,
+        /// The raw `PageDiff` (`None` for a cleared page).
+        pub diff: Option<[u8; 16]>,
+    }
+
+    /// The state after one batch of `VerifPageWalk::apply`.
+    pub struct VerifWalkOutput {
+        /// The new root.
+        pub root: [u8; 32],
+        /// Every stored page after the batch: page id path, page bytes, `elided_children()`.
+        pub pages: Vec<(Vec<u8>, Vec<u8>, u64)>,
+        /// The pages the walkers reported, in order.
+        pub updates: Vec<VerifWalkUpdate>,
+        /// Terminals replaced below the root page, terminals handled by the root page walker,
+        /// child page roots placed into the root page, pages reconstructed while seeking.
+        pub counts: (usize, usize, usize, usize),
+    }
+
+    /// An in-memory page store with the real `PageWalker` driven over it batch by batch the way
+    /// `merkle/worker.rs` drives it for a single worker (seek with on-demand reconstruction of
+    /// elided pages, sub-trie replacement terminal by terminal, `conclude`, root page walker).
+    pub struct VerifPageWalk<H>(crate::merkle::verif_walk::Session<H>);
+
+    impl<H: nomt_core::hasher::NodeHasher> VerifPageWalk<H> {
+        /// `garbage`: what fresh pages hold before the walker writes to them (the page pool does
+        /// not zero pages): 0 zeroes, 1 leaf-like nodes, 2 internal-like nodes, 3 a mix, other:
+        /// whatever the pool hands out.
+        pub fn new(garbage: u8) -> Self {
+            VerifPageWalk(crate::merkle::verif_walk::Session::new(garbage))
+        }
+
+        /// One commit: ascending distinct keys; `None` reads the key, `Some(None)` deletes it,
+        /// `Some(Some(value_hash))` writes it.
+        pub fn apply(&mut self, batch: &[(KeyPath, Option<Option<[u8; 32]>>)]) -> VerifWalkOutput {
+            let out = self.0.apply(batch);
+            VerifWalkOutput {
+                root: out.root,
+                pages: self.0.pages(),
+                updates: out
+                    .updates
+                    .into_iter()
+                    .map(|u| VerifWalkUpdate {
+                        page_id: u.page_id,
+                        cleared: u.cleared,
+                        fresh: u.fresh,
+                        was_stored: u.was_stored,
+                        diff: u.diff,
+                    })
+                    .collect(),
+                counts: (
+                    out.terminals,
+                    out.root_terminals,
+                    out.child_roots,
+                    out.reconstructed,
+                ),
+            }
+        }
+
+        /// The current root.
+        pub fn root(&self) -> [u8; 32] {
+            self.0.root()
+        }
+    }
+
+    /// All batches on a new store, the state after every batch.
+    pub fn page_walk<H: nomt_core::hasher::NodeHasher>(
+        batches: Vec<Vec<(KeyPath, Option<Option<[u8; 32]>>)>>,
+        garbage: u8,
+    ) -> Vec<VerifWalkOutput> {
+        let mut walk = VerifPageWalk::<H>::new(garbage);
+        batches.iter().map(|b| walk.apply(b)).collect()
+    }
 }
 
 const MAX_COMMIT_CONCURRENCY: usize = 64;
